@@ -364,7 +364,7 @@ func init() {
 	explore.Register(&explore.Check{
 		ID:         "C11",
 		Level:      "exploration",
-		ShardDepth: 3,
+		ShardDepth: 4,
 		Body:       body,
 		Rule: "(i) every value of int8/uint8/int16/uint16 plus two out-of-range neighbours on each side, rendered in every base 2..36 in both letter cases; " +
 			"(ii) min-1,min,min+1,-1,0,1,max-1,max,max+1,2^64,2^128,-2^63,-2^63-1 for int/int16/int32/int64/uint/uint16/uint32/uint64 in bases 10,2,8,16,36, with and without a leading zero, through 6 paths (--val=V, --val V, default tag, environment, positional, INI entry); " +
@@ -374,6 +374,6 @@ func init() {
 		Assumptions:  []string{"duration syntax is Go's time.ParseDuration (trusted)", "bool spellings other than true/false, a leading '+', inf/nan/hex-float/underscore spellings are grey: acceptance not asserted, exactness is"},
 		RequiredHits: []string{"must-accept", "must-reject", "grey", "not-a-choice"},
 		Bound:        [2]string{"strings <= 4 via --val=V; full value range of 8- and 16-bit types in all bases", "strings <= 4 through 3 paths; full value range of 8- and 16-bit types in all bases"},
-		BudgetS:      [2]int{100, 1500},
+		BudgetS:      [2]int{170, 1500},
 	})
 }
